@@ -68,6 +68,8 @@ def tok : R Tok := do
   | "X" => do let s ← str; pure (.serr s)
   | _ => failure
 
+def encBool (b : Bool) : String := if b then "1" else "0"
+
 def encAttr (a : Attr) : String := s!"{encOStr a.ns} {encStr a.name} {encStr a.value}"
 
 def encList (f : α → String) (l : List α) : String :=
@@ -86,7 +88,32 @@ def encTok : Tok → String
 
 def encToks (ts : List Tok) : String := encList encTok ts
 
-def encBool (b : Bool) : String := if b then "1" else "0"
+
+def encPair (p : Str × Str) : String := s!"{encStr p.1} {encStr p.2}"
+def pair : R (Str × Str) := do let a ← str; let b ← str; pure (a, b)
+
+def encTTok : TTok → String
+  | .doctype n p s c => s!"D {encOStr n} {encOStr p} {encOStr s} {encBool c}"
+  | .chars s => s!"C {encStr s}"
+  | .space s => s!"W {encStr s}"
+  | .startTag n a sc => s!"S {encStr n} {encList encPair a} {encBool sc}"
+  | .endTag n a sc => s!"E {encStr n} {encList encPair a} {encBool sc}"
+  | .comment s => s!"M {encStr s}"
+  | .parseError c v => s!"P {encStr c} {encList encPair v}"
+
+def encTToks (ts : List TTok) : String := encList encTTok ts
+
+def ttok : R TTok := do
+  let k ← word
+  match k with
+  | "D" => do let n ← ostr; let p ← ostr; let s ← ostr; let c ← bool; pure (.doctype n p s c)
+  | "C" => do let s ← str; pure (.chars s)
+  | "W" => do let s ← str; pure (.space s)
+  | "S" => do let n ← str; let a ← list pair; let sc ← bool; pure (.startTag n a sc)
+  | "E" => do let n ← str; let a ← list pair; let sc ← bool; pure (.endTag n a sc)
+  | "M" => do let s ← str; pure (.comment s)
+  | "P" => do let c ← str; let v ← list pair; pure (.parseError c v)
+  | _ => failure
 
 def encExcept (f : α → String) : Except PyErr α → String
   | .ok a => "ok " ++ f a
